@@ -45,6 +45,7 @@ func (s *Syncer) SendOnce(ctx context.Context, env *lmdb.Env) (txnID header.TxnI
 		inTxn = env.Update
 	}
 
+	verifYield("send-before-txn")
 	err = inTxn(func(txn *lmdb.Txn) error {
 		// Call hook if defined
 		if s.hooks.BeforeRead != nil {
@@ -136,6 +137,7 @@ func (s *Syncer) SendOnce(ctx context.Context, env *lmdb.Env) (txnID header.TxnI
 	// In such case there is a race present, where the application could have
 	// written new data under the txnID we think we have written.
 	// TODO: Further investigate this non-native potential race
+	verifYield("send-after-txn")
 	info, err := env.Info()
 	if err != nil {
 		return 0, err
@@ -192,6 +194,7 @@ func (s *Syncer) SendOnce(ctx context.Context, env *lmdb.Env) (txnID header.TxnI
 
 	// Send it to storage
 	for i := 0; i < s.c.StorageRetryCount || s.c.StorageRetryForever; i++ {
+		verifYield("send-before-store")
 		metricSnapshotsStoreCalls.Inc()
 		err = s.st.Store(ctx, name, out)
 		if err != nil {
